@@ -369,16 +369,20 @@ pub fn multi_session_trace(seed: u64, zipped: bool) -> Trace {
     let mut sessions = Vec::new();
     // with the zipped layout several sessions should extract the *same* archive at about the same time
     let shared = rng.pick(&configs).clone();
+    // half of the runs: every session works on the SAME expression under its own configuration (a process-wide memo that
+    // forgets the language, style or code in its key shows when one session is handed what another one computed)
+    let shared_expr: Option<usize> = if rng.chance(0.5) { Some(*rng.pick(&[61usize, 62, 61, 62, 7, 31, 59, 55, 50, 2, 5])) } else { None };
     for _ in 0..n_sessions {
         let c = if zipped && rng.chance(0.7) { shared } else { *rng.pick(&configs) };
         let mut s: Vec<Step> = vec![Step::Call(Op::SetRulesDir(MOUNT_A.into()))];
         s.push(Step::Call(Op::SetPref("Language".into(), c.0.into())));
         s.push(Step::Call(Op::SetPref("SpeechStyle".into(), c.1.into())));
         s.push(Step::Call(Op::SetPref("BrailleCode".into(), c.2.into())));
-        s.push(Step::Call(Op::SetMathml(ExprRef::Pool(rng.below(all.len())))));
+        s.push(Step::Call(Op::SetMathml(ExprRef::Pool(shared_expr.unwrap_or_else(|| rng.below(all.len()))))));
         s.push(Step::Call(Op::Speech));
         s.push(Step::Call(Op::Braille(IdRef::Empty)));
-        let n = rng.range(4, 25);
+        s.push(Step::Call(Op::Overview));
+        let n = if shared_expr.is_some() { rng.range(0, 8) } else { rng.range(4, 25) };
         let touch = !zipped && rng.chance(0.5);
         let mut h = history_steps(&mut rng, n, touch, &all);
         // a touched prefs.yaml makes every session re-read its preferences (values written by navigation commands fall
@@ -388,6 +392,10 @@ pub fn multi_session_trace(seed: u64, zipped: bool) -> Trace {
         // checkpoints against a fresh session are a single-session oracle; here the oracle is the solo run
         h.retain(|st| !matches!(st, Step::Check { .. }));
         s.extend(h);
+        if let Some(e) = shared_expr {
+            // ... and once more at the end, under whatever configuration the history left
+            s.push(Step::Call(Op::SetMathml(ExprRef::Pool(e))));
+        }
         s.push(Step::Call(Op::Speech));
         s.push(Step::Call(Op::Braille(IdRef::Empty)));
         s.push(Step::Call(Op::Overview));
